@@ -128,3 +128,72 @@ theorem stored_eq_denote (f : MFunc) (shape : List Nat) (mask : List Bool) (args
   simp only [hlt, ↓reduceIte, elemAt]
 
 end PF.Map
+
+namespace PF.Map
+open PF
+
+/-- the axis loop of `MapSpec.shape`: shape and mask have one entry per output axis; an entry is external (`true`) with
+    the common dimension exactly when some input carries the axis name, else internal with the next internal size -/
+theorem go_spec (ms : MSpec) (shapes : List (String × List Nat)) (internal : List (String × List Nat)) (out : ASpec) :
+    ∀ (axes : List String) (k : Nat) (s : List Nat) (m : List Bool),
+      mspecShape.go ms shapes internal out axes k = .ok (s, m) →
+      s.length = axes.length ∧ m.length = axes.length ∧
+      ∀ q (hq : q < axes.length) (hs : q < s.length) (hm : q < m.length),
+        (m[q] = true → commonDim ms axes[q] shapes = .ok (some s[q])) ∧
+        (m[q] = false → commonDim ms axes[q] shapes = .ok none ∧
+            ∃ (ish : List Nat) (j : Nat), alookup internal out.name = some ish ∧ ish[j]? = some s[q]) := by
+  intro axes
+  induction axes with
+  | nil =>
+    intro k s m h
+    simp [mspecShape.go, pure, Except.pure] at h
+    obtain ⟨rfl, rfl⟩ := h
+    exact ⟨rfl, rfl, fun q hq => by simp at hq⟩
+  | cons ix rest ih =>
+    intro k s m h
+    rw [mspecShape.go] at h
+    simp only [bind, Except.bind] at h
+    split at h
+    · cases h
+    · next cd hcd =>
+      cases cd with
+      | some d =>
+        simp only at h
+        split at h
+        · cases h
+        · next sm hgo =>
+          obtain ⟨s', m'⟩ := sm
+          simp only [pure, Except.pure] at h
+          cases h
+          obtain ⟨l1, l2, hp⟩ := ih k s' m' hgo
+          refine ⟨by simp [l1], by simp [l2], ?_⟩
+          intro q hq hs hm
+          cases q with
+          | zero => simp [hcd]
+          | succ q =>
+            simp only [List.getElem_cons_succ]
+            exact hp q (by simpa using hq) (by simpa using hs) (by simpa using hm)
+      | none =>
+        simp only at h
+        split at h
+        · cases h
+        · next ish hish =>
+          split at h
+          · cases h
+          · next dd hdd =>
+            split at h
+            · cases h
+            · next sm hgo =>
+              obtain ⟨s', m'⟩ := sm
+              simp only [pure, Except.pure] at h
+              cases h
+              obtain ⟨l1, l2, hp⟩ := ih (k+1) s' m' hgo
+              refine ⟨by simp [l1], by simp [l2], ?_⟩
+              intro q hq hs hm
+              cases q with
+              | zero => simp [hcd]; exact ⟨ish, hish, k, hdd⟩
+              | succ q =>
+                simp only [List.getElem_cons_succ]
+                exact hp q (by simpa using hq) (by simpa using hs) (by simpa using hm)
+
+end PF.Map
